@@ -192,10 +192,20 @@ func c18(r *simk.Run) *simk.Violation {
 		// half of the runs: the engine's block-index write of block a does not return (slow disk) while
 		// the accepter keeps running; the node dies with that write still in flight
 		holdIndexWrite := c.Bool(0.5)
+		// a fifth of the other runs die exactly when the engine thread is about to issue its m-th durable
+		// write of the block index for block a (the index update may consist of several writes)
+		crashAtIndexWrite := 0
+		if !holdIndexWrite && c.Bool(0.4) {
+			crashAtIndexWrite = 1 + c.Intn(3)
+		}
 		stopBeforeLastNotify := false
 		if r.Avoid {
 			j1, j2 = 1<<20, 1<<20
 			stopBeforeLastNotify = c.Bool(0.5)
+			crashAtIndexWrite = 0
+		}
+		if crashAtIndexWrite > 0 {
+			j2 = 2000
 		}
 		sample = map[string]any{"chain_len": n, "txs_per_block": func() []int {
 			var o []int
@@ -203,7 +213,7 @@ func c18(r *simk.Run) *simk.Violation {
 				o = append(o, b.txs)
 			}
 			return o
-		}(), "crash_during_or_after_accept_of_block": a, "accepted_cache": acceptedCache, "index_write_of_last_block_never_returns": holdIndexWrite}
+		}(), "crash_during_or_after_accept_of_block": a, "accepted_cache": acceptedCache, "index_write_of_last_block_never_returns": holdIndexWrite, "crash_before_index_write_number": crashAtIndexWrite}
 		// the durable writes of the block index and of the execution results are scheduling points (I/O
 		// blocks the writer while other threads run) and so crash points. Writes below merkledb are not:
 		// merkledb holds its commit locks across them, and a task parked with a lock held would block
@@ -261,8 +271,11 @@ func c18(r *simk.Run) *simk.Violation {
 		engWg.Add(1)
 		waitEngine = engWg.Wait
 		s.SetGate(0, append([]string{"go:c18.engine"}, gatePrefixes...)...)
+		var engineDone atomic.Bool
+		idleRounds := 0
 		s.Go("c18.engine", 0, func() {
 			defer engWg.Done()
+			defer engineDone.Store(true)
 			if engineStep(a) {
 				acceptReturned = true
 			}
@@ -273,10 +286,34 @@ func c18(r *simk.Run) *simk.Violation {
 			j2 = 400
 		}
 		steps2 := 0
+		indexWritesSeen, atIndexWrite := 0, false
 		for ; steps2 < j2; steps2++ {
 			site, key, ok := s.GatedPos()
+			if !ok && !engineDone.Load() && idleRounds < 3 {
+				// the engine thread waits for helper goroutines that are not gated (executor, fetcher and
+				// signature workers): let them run until they are idle, then look again
+				idleRounds++
+				s.Settle()
+				steps2--
+				continue
+			}
+			idleRounds = 0
 			if !ok || (stopBeforeLastNotify && acceptReturned && site == "snow.accept.beforeNotify" && key == uint64(a)) {
 				break
+			}
+			if crashAtIndexWrite > 0 {
+				now := false
+				for _, gs := range s.GatedSites() {
+					now = now || strings.HasPrefix(gs, "disk.index.")
+				}
+				if now && !atIndexWrite {
+					indexWritesSeen++
+					if indexWritesSeen == crashAtIndexWrite {
+						s.Probe("crash_right_before_an_index_write")
+						break
+					}
+				}
+				atIndexWrite = now
 			}
 			s.SetGate(1, append([]string{"go:c18.engine"}, gatePrefixes...)...)
 			s.WaitGate()
